@@ -25,6 +25,7 @@ struct Placed {
   std::unique_ptr<char[]> heap;
   const char* p = nullptr;
 };
+static uint64_t g_pod_prior = 0;  // which earlier use the reused document of the ParseOnDemand check gets (set per case)
 // place 0: heap block of exactly len bytes; 1: ends on the last byte before PROT_NONE; 2: starts right after PROT_NONE
 static void put(const std::string& t, int place, Placed& o) {
   if (place == 0 || t.size() > g_arena->capacity()) {
@@ -118,9 +119,15 @@ static std::string judge_valid(const std::string& text, const MV& root, const re
     if (r2.Error() != r.Error() || r2.Offset() != r.Offset() || t2.size() != target.size() || (t2.size() && t2.data() != target.data()))
       return "GetOnDemand with a JsonPointerView differs from the std::string pointer for path " + ps;
   }
-  // ParseOnDemand must agree
-  {
+  // ParseOnDemand must agree - on a fresh document and on documents that were used before (a full Parse of the same text,
+  // an earlier ParseOnDemand of the whole text, a failed parse): what an earlier call left in the document's buffers is not
+  // part of the value
+  for (int prior = 0; prior < 4; prior++) {
+    if (prior != (int)(g_pod_prior % 4) && prior != 0) continue;
     Document d;
+    if (prior == 1) d.Parse(P.p, text.size());
+    else if (prior == 2) d.ParseOnDemand(P.p, text.size(), JsonPointer());
+    else if (prior == 3) d.Parse("[" + std::string(P.p, text.size()));
     d.ParseOnDemand(P.p, text.size(), jp);
     c.subevals++;
     if (want) {
@@ -282,6 +289,9 @@ static void property_c10(Src& s, Case& c) {
   }
   std::string text = render(s, v, lay);
   int place = (int)s.weighted({2, 2, 1});
+  g_pod_prior = s.pick(0, 3);
+  c.note("podprior", std::to_string(g_pod_prior));
+  c.cls("parse-on-demand-document:" + std::string(g_pod_prior == 0 ? "fresh" : g_pod_prior == 1 ? "parsed-before" : g_pod_prior == 2 ? "on-demand-before" : "failed-before"));
   c.note("text", text);
   c.note("place", std::to_string(place));
   if (c.counting) c.desc(printable(text, 110));
@@ -478,7 +488,12 @@ static void direct(const Fields& f, Case& c) {
 #else
   refjson::Result r = refjson::parse(*t);
   if (!r.ok || r.bad_surrogate) return;  // C10 is about valid texts
-  std::string m = judge_valid(*t, r.value, p, place, c);
+  std::string m;
+  for (uint64_t pr = 0; pr < 4 && m.empty(); pr++) {
+    if (field(f, "podprior") && (uint64_t)atol(field(f, "podprior")->c_str()) != pr) continue;
+    g_pod_prior = pr;
+    m = judge_valid(*t, r.value, p, place, c);
+  }
 #endif
   if (!m.empty()) c.fail(m + " | path=" + refjson::path_show(p) + " text=" + printable(*t, 300));
 }
